@@ -73,6 +73,7 @@ type frame struct {
 	localParams map[ssa.Value]bool
 	localRefs map[string][]localRef
 	curBlock *ssa.BasicBlock
+	boxN     int
 }
 
 func (fr *frame) name(v ssa.Value) string {
@@ -260,6 +261,15 @@ func (fr *frame) hazard(class, g, okCond string, pos token.Pos, what string) {
 	if fr.nosafety && panicClasses[class] {
 		return
 	}
+	// `recovers <class>`: the function handles this panic itself with a deferred recover (only honoured while it has one)
+	if fr.contract != nil && panicClasses[class] {
+		for _, c := range fr.contract.Get("recovers") {
+			if strings.Contains(" "+c.Text+" ", " "+class+" ") && hasDeferredRecover(fr.fn) {
+				fr.vc.note("panic class " + class + " in " + fr.vc.fn + " is handled by the function's own deferred recover()")
+				return
+			}
+		}
+	}
 	if okCond == "true" {
 		return
 	}
@@ -273,6 +283,31 @@ func (fr *frame) hazard(class, g, okCond string, pos token.Pos, what string) {
 	}
 	o := fr.vc.oblige(class, label, g, okCond, what, props, posOf(fr.fn, pos))
 	_ = o
+}
+
+func hasDeferredRecover(fn *ssa.Function) bool {
+	for _, b := range fn.Blocks {
+		for _, in := range b.Instrs {
+			d, ok := in.(*ssa.Defer)
+			if !ok {
+				continue
+			}
+			callee := d.Call.StaticCallee()
+			if callee == nil {
+				continue
+			}
+			for _, cb := range callee.Blocks {
+				for _, ci := range cb.Instrs {
+					if call, ok := ci.(*ssa.Call); ok {
+						if bi, ok := call.Call.Value.(*ssa.Builtin); ok && bi.Name() == "recover" {
+							return true
+						}
+					}
+				}
+			}
+		}
+	}
+	return false
 }
 
 // ---------------------------------------------------------------- driver
@@ -507,6 +542,16 @@ func (fr *frame) encodeInstr(in ssa.Instruction, st *State, g string) {
 		fr.set(x, fr.val(x.X))
 	case *ssa.MakeInterface:
 		fr.set(x, vc.box(x.X.Type(), fr.val(x.X)))
+		// a value enters an interface: its type's invariant is checked here (interface values are then assumed valid)
+		if !isIface(x.X.Type()) && fr == fr.rootFr {
+			if _, isConst := x.X.(*ssa.Const); !isConst {
+				for _, inv := range vc.P.typeInvFor(x.X.Type()) {
+					fr.boxN++
+					vc.oblige("typeinv", fmt.Sprintf("box%d:%s", fr.boxN, inv.Label), g, fr.typeInvTerm(inv, x.X.Type(), fr.val(x.X), st),
+						"type invariant of the "+x.X.Type().String()+" value converted to an interface", fr.props, posOf(fr.fn, x.Pos()))
+				}
+			}
+		}
 	case *ssa.TypeAssert:
 		fr.typeAssert(x, st, g)
 	case *ssa.Extract:
@@ -908,6 +953,13 @@ func (fr *frame) globalConstLoad(gl *ssa.Global) (string, bool) {
 		for _, f := range fr.typeFacts(fr.entry, et, name, true) {
 			fr.vc.assume(f)
 		}
+		// a function variable initialised with a function is non-nil
+		if v, ok := P.globalConst[gl]; ok && v != nil {
+			switch v.(type) {
+			case *ssa.Function, *ssa.MakeClosure:
+				fr.vc.assume("(not (= " + name + " 0))")
+			}
+		}
 		// an error variable initialised with errors.New / fmt.Errorf is a distinct non-nil value
 		if v, ok := P.globalConst[gl]; ok && v != nil && isIface(et) {
 			if call, ok := v.(*ssa.Call); ok {
@@ -1269,10 +1321,19 @@ func (fr *frame) makeSlice(x *ssa.MakeSlice, st *State, g string) {
 	vc := fr.vc
 	n := fr.idxTerm(x.Len)
 	c := fr.idxTerm(x.Cap)
-	fr.hazard("makelen", g, fmt.Sprintf("(and (<= 0 %s) (<= %s %s))", n, n, c), x.Pos(), "make: length non-negative and within capacity")
+	et0 := x.Type().Underlying().(*types.Slice).Elem()
+	esz := types.SizesFor("gc", "amd64").Sizeof(et0)
+	if esz < 1 {
+		esz = 1
+	}
+	// runtime.makeslice panics (recoverably) when the length is negative, exceeds the capacity, or the size overflows / exceeds maxAlloc (2^48)
+	fr.hazard("makelen", g, fmt.Sprintf("(and (<= 0 %s) (<= %s %s) (<= (* %s %d) 281474976710656))", n, n, c, c, esz), x.Pos(), "make: length non-negative, within capacity, size within the runtime's limit")
 	if _, isConst := x.Cap.(*ssa.Const); !isConst && !fr.boundedBySize(x.Cap) {
+		if !vc.declared["MEMCAP"] {
+			vc.declare("MEMCAP", "Int")
+			vc.assume("(>= MEMCAP 8)") // any host can allocate eight words
+		}
 		fr.hazard("allocsize", g, fmt.Sprintf("(<= %s MEMCAP)", c), x.Pos(), "make: size bounded by available memory")
-		vc.declare("MEMCAP", "Int")
 	}
 	r := vc.alloc(st, fr.prefix+x.Name())
 	fr.set(x, fmt.Sprintf("(mk_slice %s 0 %s %s)", r, n, c))
